@@ -23,26 +23,29 @@ FUNCTIONS = [_C + f for f in ('equatorial2ecliptical', 'ecliptical2equatorial', 
 MANIFEST = dict(
     text=("Lean 4 theorems (Props/C05.lean, over the reals, Mathlib) about the model of the six conversions and the "
           "separation functions, for every direction with |latitude| < 90 and every obliquity / observer latitude: each "
-          "conversion never raises and maps the direction vector by the rotation matrix of its frame pair (Rx(eps); the "
-          "fixed galactic matrix built from 192.25, 27.4, 123/303; the horizontal one from the observer's latitude), the "
-          "matrices of a pair are transposes of each other and orthogonal, hence the pair is mutually inverse on directions "
-          "and preserves the angle between any two directions; longitudes lie in [0,360) where the code calls "
-          "to_positive and in (-180,180] otherwise, latitudes in [-90,90]; cos(angular_separation) is the dot product, "
-          "the result lies in [0,180] and is symmetric; relative_position_angle is the argument of the (north, east) "
-          "components at the second body, changes sign when the right ascensions are exchanged and has opposite "
-          "signs for the two orderings; circle_diameter lies between the largest separation a and 2a/sqrt(3). The "
-          "exact poles (cos(latitude) = 0, where the source evaluates tan) are outside the theorems. The model is "
-          "tied to /repo by running its binary64 instantiation against the real functions bit for bit; the "
-          "numerical clauses (1e-9 degree) are measured on the implementation against an independent "
-          "vector/matrix oracle over uniform directions, both poles and caps down to 1e-9 degree around them, the "
-          "poles of the other frame, the equator, the 0/360 seam, pairs from 1e-7 to 179.999 degrees apart, "
-          "obliquity 0-30, observer latitude -90..90 incl. +-90, hour angle 0-360. straight_line: tie, ranges and a "
-          "collinearity sanity check only."),
+          "conversion never raises and maps the direction vector by the rotation of its frame pair (Rx(eps); the "
+          "fixed galactic rotation built from 192.25, 27.4, 123/303, shown to take the pole RA 192.25 Dec 27.4 to the "
+          "galactic pole and the celestial pole to l = 123; the horizontal one from the observer's latitude); the "
+          "rotations of a pair are inverse to each other and orthogonal, hence converting there and back returns the "
+          "same direction and, for coordinates in the documented ranges, exactly the same two numbers, and the angle "
+          "between any two directions is unchanged; longitudes lie in [0,360) where the code calls to_positive and in "
+          "(-180,180] otherwise, latitudes in [-90,90]; angular_separation never raises, its cosine is the dot product, "
+          "it lies in [0,180] and is symmetric; relative_position_angle is the argument of the (north, east) "
+          "components at the second body, is negated when the right ascensions are exchanged and has opposite "
+          "signs for the two orderings of the bodies; circle_diameter lies between the largest separation a and "
+          "2a/sqrt(3) (given the strict triangle inequality between the three separations). The exact poles "
+          "(cos(latitude) = 0, where the source evaluates tan) are outside the theorems. The model is tied to /repo by "
+          "running its binary64 instantiation against the real functions bit for bit; the numerical clauses "
+          "(1e-9 degree) are measured on the implementation against an independent vector/matrix oracle over uniform "
+          "directions, both poles and caps down to 1e-9 degree around them, the poles of the other frame, the "
+          "equator, the 0/360 seam, pairs from 1e-7 to 179.999 degrees apart, obliquity 0-30, observer latitude "
+          "-90..90 incl. +-90, hour angle 0-360. straight_line: tie, ranges and a collinearity sanity check only."),
     note=("Trusted: Lean kernel, Mathlib, axioms propext/Classical.choice/Quot.sound; the hand-written model "
           "(lean/templates/Coords.lean) and its bit-exact correspondence run; the idealisation binary64 -> real is "
           "measured, not proved. Known findings (findings.d/C05.json): asin-based latitudes lose accuracy (up to 1.2e-6 "
           "degree) and raise ValueError within 1e-3 degree of a pole of the target frame; angular_separation's "
-          "(1-cos)/2 haversine and relative_position_angle lose accuracy below about 4e-3 degree and above 179.99 degrees."),
+          "(1-cos)/2 haversine and relative_position_angle lose accuracy below about 4e-3 degree and above 179.99 "
+          "degrees; straight_line raises ValueError for exactly aligned bodies."),
     technique="Lean 4 proof over the reals (rotation matrices, Complex.arg) + bit-exact model/implementation correspondence + predicate check",
     ref='6 C05')
 
